@@ -7,7 +7,9 @@ From DV Require Import Model.PyPrims Gen.BitFns Gen.Consts Model.C05Model Model.
      Proofs.C05Lists Proofs.C05Freq Proofs.C05Consensus Proofs.C05Stats Proofs.C05Trees
      Proofs.C05Array Proofs.C05Examples Proofs.C05Final Proofs.C05Bits Proofs.C05Laminar Proofs.C05Final2 Proofs.C05Scores Proofs.C05Unique Proofs.C05Final3.
 From DV Require Import Model.C05GenPrims Gen.SplitDist Proofs.C05GenStats Proofs.C05GenDist Proofs.C05GenDist2
-     Proofs.C05GenDist3 Proofs.C05GenDist4.
+     Proofs.C05GenDist3 Proofs.C05GenDist4 Proofs.C05GenScores Proofs.C05GenCollapse Proofs.C05GenSumm.
+From DV Require Import Model.C05GenPrims2.
+Require Coq.Strings.String.
 Import ListNotations.
 Open Scope Z_scope.
 
@@ -598,3 +600,144 @@ Proof.
                             (fun ND => gen_get_split_node_age_summaries_fresh c x ND NE)).
 Qed.
 Print Assumptions gen_summary_getters_fresh.
+
+Import Coq.Strings.String.
+
+(* ------------------------------------------------------------------ translator tie, part 2:
+   per-tree scores, TreeArray scores, collapse, frequency_of_bipartition *)
+
+(* split_support_iter (a generator; traversal_strategy other than the two names raises
+   ValueError): the yielded list and the state are the model's *)
+Theorem gen_split_support_iter_is_model :
+  forall (c : config) (x : sdx) (t : stree) (b post ext : bool),
+  NoDup (map fst (counts (x_sd x))) ->
+  exists x', gen_split_support_iter c x t b ext (if post then "postorder"%string else "preorder"%string)
+             = Ok (x', snd (split_support_iter (x_sd x) post ext t))
+             /\ x_sd x' = fst (split_support_iter (x_sd x) post ext t).
+Proof. exact gen_split_support_iter_eq. Qed.
+Print Assumptions gen_split_support_iter_is_model.
+
+Theorem gen_split_support_iter_bad_strategy : forall (c : config) (x : sdx) (t : stree) (b ext : bool),
+  gen_split_support_iter c x t b ext "levelorder"%string = Err ValueErr.
+Proof. exact (fun c x t b ext => eq_refl). Qed.
+Print Assumptions gen_split_support_iter_bad_strategy.
+
+Theorem gen_sum_of_split_support_on_tree_is_model :
+  forall (c : config) (x : sdx) (t : stree) (b ext : bool),
+  NoDup (map fst (counts (x_sd x))) ->
+  exists x', gen_sum_of_split_support_on_tree c x t b ext
+             = Ok (x', snd (sum_of_split_support_on_tree (x_sd x) ext t))
+             /\ x_sd x' = fst (sum_of_split_support_on_tree (x_sd x) ext t).
+Proof. exact gen_sum_of_split_support_on_tree_eq. Qed.
+Print Assumptions gen_sum_of_split_support_on_tree_is_model.
+
+(* the log-product, with the accumulator kept as exp(accumulator) (py_log_zero / py_log_add) *)
+Theorem gen_log_product_of_split_support_on_tree_is_model :
+  forall (c : config) (x : sdx) (t : stree) (b ext : bool),
+  NoDup (map fst (counts (x_sd x))) ->
+  exists x', gen_log_product_of_split_support_on_tree c x t b ext
+             = Ok (x', snd (product_of_split_support_on_tree (x_sd x) ext t))
+             /\ x_sd x' = fst (product_of_split_support_on_tree (x_sd x) ext t).
+Proof. exact gen_log_product_of_split_support_on_tree_eq. Qed.
+Print Assumptions gen_log_product_of_split_support_on_tree_is_model.
+
+(* TreeArray.calculate_sum_of_split_supports / calculate_log_product_of_split_supports: state,
+   score list and index are the model's (index as an int) *)
+Theorem gen_calculate_split_supports_are_model : forall (c : config) (a : ta) (ext : bool),
+  NoDup (map fst (counts (ta_sd a))) ->
+  gen_calculate_sum_of_split_supports c a ext
+  = (fst (ta_scores false a ext), (fst (snd (ta_scores false a ext)),
+                                   option_map Z.of_nat (snd (snd (ta_scores false a ext))))) /\
+  gen_calculate_log_product_of_split_supports c a ext
+  = (fst (ta_scores true a ext), (fst (snd (ta_scores true a ext)),
+                                  option_map Z.of_nat (snd (snd (ta_scores true a ext))))).
+Proof.
+  exact (fun c a ext ND => conj (gen_calculate_sum_of_split_supports_eq c a ext ND)
+                                (gen_calculate_log_product_of_split_supports_eq c a ext ND)).
+Qed.
+Print Assumptions gen_calculate_split_supports_are_model.
+
+(* hence mcc_is_argmax holds of the generated code: the index it returns is the first one
+   attaining the maximum of the score list it returns *)
+Theorem gen_mcc_is_argmax : forall (c : config) (a : ta) (ext : bool) (idx : Z),
+  NoDup (map fst (counts (ta_sd a))) ->
+  snd (snd (gen_calculate_sum_of_split_supports c a ext)) = Some idx ->
+  let scores := fst (snd (gen_calculate_sum_of_split_supports c a ext)) in
+  exists i : nat, idx = Z.of_nat i /\ (i < List.length scores)%nat /\
+    (forall k, (k < List.length scores)%nat -> (nth k scores 0%Q <= nth i scores 0%Q)%Q) /\
+    (forall k, (k < i)%nat -> (nth k scores 0%Q < nth i scores 0%Q)%Q).
+Proof. exact gen_mcc_is_argmax_l. Qed.
+Print Assumptions gen_mcc_is_argmax.
+
+(* collapse_edges_with_less_than_minimum_support: the rooting checks, the selection loop
+   (split absent, or frequency < min_freq) and the collapse of the selected nodes
+   (py_collapse_nodes: Edge.collapse with length adjustment as an interface operation) give the
+   model's result, value or error *)
+Theorem gen_collapse_edges_is_model :
+  forall (c : config) (x : sdx) (rt : option bool) (t : stree) (mf : Q),
+  NoDup (map fst (counts (x_sd x))) ->
+  match snd (collapse_tree (x_sd x) rt mf t) with
+  | Ok t' => exists x', gen_collapse_edges c x rt t mf = Ok (x', t') /\
+                        x_sd x' = fst (collapse_tree (x_sd x) rt mf t)
+  | Err e => gen_collapse_edges c x rt t mf = Err e
+  | OutOfFuel => gen_collapse_edges c x rt t mf = OutOfFuel
+  end.
+Proof. exact gen_collapse_edges_eq. Qed.
+Print Assumptions gen_collapse_edges_is_model.
+
+(* hence collapse_low_support_exact holds of the generated code *)
+Theorem gen_collapse_low_support_exact :
+  forall (c : config) (x x' : sdx) (rt : option bool) (t t' : stree) (mf : Q),
+  NoDup (map fst (counts (x_sd x))) ->
+  gen_collapse_edges c x rt t mf = Ok (x', t') ->
+  let ftbl := snd (get_freqs (x_sd x)) in
+  sn_split t' = sn_split t /\ sn_len t' = sn_len t /\
+  st_nonroot t' = filter (fun p => snd p || negb (low_support ftbl mf (fst p))) (st_nonroot t) /\
+  Forall2 (fun a b => fst a = fst b /\ (snd a == snd b)%Q) (st_root_tips t') (st_root_tips t).
+Proof. exact gen_collapse_low_support_exact_l. Qed.
+Print Assumptions gen_collapse_low_support_exact.
+
+(* TreeList.frequency_of_bipartition(split_bitmask=s) *)
+Theorem gen_frequency_of_bipartition_is_model :
+  forall (c : config) (ts : list fob_tree) (all : Z) (b : bool) (s : Z),
+  gen_frequency_of_bipartition c ts all b s = (ts, frequency_of_bipartition all s ts).
+Proof. exact gen_frequency_of_bipartition_eq. Qed.
+Print Assumptions gen_frequency_of_bipartition_is_model.
+
+(* SplitDistributionSummarizer.summarize_splits_on_tree, every set_edge_lengths mode (None, keep,
+   support, clear, mean-length, median-length, mean-age, median-age), percentages, minimum edge
+   length (both places), error_on_negative_edge_lengths, and the two "not available" ValueErrors:
+   the generated function returns, per node in preorder, the support, edge length and age the
+   model computes (labels, annotations and the length_*/age_* decorations are not represented;
+   tree.set_edge_lengths_from_node_ages is the interface operation
+   py_set_edge_lengths_from_node_ages), or the same error.  Hypothesis on the summary caches:
+   the counter differs from total_trees_counted (always, once a tree was counted). *)
+Theorem gen_summarize_splits_on_tree_is_model :
+  forall (c : config) (o : sopts) (x : sdx) (t : stree) (b : bool),
+  NoDup (map fst (counts (x_sd x))) -> NoDup (map fst (elens (x_sd x))) -> NoDup (map fst (nages (x_sd x))) ->
+  x_counted_for_summ x <> total (x_sd x) ->
+  match snd (summarize_tree (x_sd x) o t) with
+  | Ok outs => exists x', gen_summarize_splits_on_tree c o x t b
+                          = Ok (x', map (fun out => mkNv (n_split out) (n_len out) (n_age out) (Some (n_support out))) outs)
+                          /\ x_sd x' = fst (summarize_tree (x_sd x) o t)
+  | Err e => gen_summarize_splits_on_tree c o x t b = Err e
+  | OutOfFuel => False
+  end.
+Proof. exact gen_summarize_splits_on_tree_eq. Qed.
+Print Assumptions gen_summarize_splits_on_tree_is_model.
+
+(* hence support_is_freq holds of the generated code *)
+Theorem gen_support_is_freq :
+  forall (c : config) (ts : list tree_in) (o : sopts) (x : sdx) (t : stree) (b : bool) (x' : sdx) (outs : list nodev),
+  x_sd x = count_trees c sd_empty ts ->
+  (forall t0, In t0 ts -> NoDup (splits_of t0)) ->
+  ignore_len c = false -> ignore_ages c = false ->
+  x_counted_for_summ x <> total (x_sd x) ->
+  gen_summarize_splits_on_tree c o x t b = Ok (x', outs) ->
+  Forall2 (fun node v =>
+             nv_split v = sn_split node /\
+             exists q, nv_support v = Some q /\
+                       (q == (if o_percent o then 100 else 1) * exact_freq c ts (sn_split node))%Q)
+          (st_preorder t) outs.
+Proof. exact gen_support_is_freq_l. Qed.
+Print Assumptions gen_support_is_freq.
